@@ -131,8 +131,8 @@ def judge_trace(ctx, trace, source, kd, totals):
               deviations=len(v["deviations"]), wall_s=v["wall_s"], **{k: v.get(k, 0) for k in STAT_KEYS if v.get(k, 0)})
     lib.classify_trace(ctx, v, trace, source, program_of=program_of)
     if v.get("undecided", 0):
-        raise lib.ToolError(f"{source}: {v['undecided']} patch records carry control values outside the range the "
-                            "monitor models (|v| >= 2^24): inconclusive")
+        raise lib.ToolError(f"{source}: {v['undecided']} patch records could not be decided (control values outside the range the "
+                            "monitor models, |v| >= 2^24, or a zlib block the driver's inflater rejects and the library's reads): inconclusive")
     return v
 
 
